@@ -12,7 +12,8 @@
 //	graph := N <node>*N        node := `Q v` (parameter.Value[int], DefaultValue v)
 //	                                 | `S salt ns sc*ns na (len id*len)*na`   sc := `-` | id      (nodes.Struct; producers too)
 //	call  := `u p v` | `d p` | `a i`          resp := `ok` | `v n` | `err`
-//	c13.seq only: node id 999999 = a node id / producer name the instance does not have; the answer per
+//	c13.seq / c13.http.seq only: `ub p` = an update of p with a message that does not decode (response err,
+//	parameter untouched, ModelVersion +1 all the same);  node id 999999 = a node id / producer name the instance does not have; the answer per
 //	call is the block `<resp> pv <Version() of every parameter in node order> mv <ModelVersion()>`
 //	event := `i opid tid <call>` | `r opid <resp>`
 //
@@ -430,14 +431,27 @@ func c13BuildOpt(g []c13Desc, opt c13BuildOptions) *c13Built {
 }
 
 type c13Call struct {
-	kind  byte // 'u' 'd' 'a'
+	kind  byte // 'u' 'd' 'a'; 'b' = `ub p`: an update whose message does not decode (sequential families only; v selects the message)
 	p, v  int
 	yield bool // runtime.Gosched() before issuing it
 	w     int  // FILE family only: width of the zero-padded payload of an update
 }
 
+// messages an int parameter.Value cannot decode: malformed JSON and wrong types.  ApplyMessage returns
+// the error before writing anything; UpdateParameter still bumps the model version and returns the error.
+var c13BadPayloads = []string{"{", "12x", `"x"`, "[1]", "1.5", "true", "", "1 2"}
+
+func (k c13Call) payload() []byte {
+	if k.kind == 'b' {
+		return []byte(c13BadPayloads[k.v%len(c13BadPayloads)])
+	}
+	return []byte(itoa(k.v))
+}
+
 func (k c13Call) String() string {
 	switch k.kind {
+	case 'b':
+		return "ub " + itoa(k.p)
 	case 'u':
 		return "u " + itoa(k.p) + " " + itoa(k.v)
 	case 'd':
@@ -468,7 +482,7 @@ func (b *c13Built) invoke(k c13Call, payload []byte) (r c13Raw) {
 		id, name = b.ids[k.p], b.names[k.p]
 	}
 	switch k.kind {
-	case 'u':
+	case 'u', 'b':
 		r.ok, r.err = b.inst.UpdateParameter(id, payload)
 	case 'd':
 		r.data = b.inst.ParameterData(id)
@@ -488,7 +502,7 @@ func c13Resp(k c13Call, r c13Raw) string {
 		return "err"
 	}
 	switch k.kind {
-	case 'u':
+	case 'u', 'b':
 		if r.ok && r.err == nil {
 			return "ok"
 		}
@@ -581,6 +595,22 @@ func c13Seq(c *Ctx) {
 	next := 1000
 	var queue []c13Call // reads scheduled right after an update
 	var calls, resps []string
+	gotMsg := map[int]bool{} // parameter -> has been sent a message (of any kind) before
+	// after a rejected message: the parameter itself and every producer depending on it are read
+	afterRejected := func(p int) {
+		queue = append(queue, c13Call{kind: 'd', p: p})
+		for _, pi := range c.Rng.Perm(len(b.prods)) {
+			if rel[b.prods[pi]][p] > 0 {
+				queue = append(queue, c13Call{kind: 'a', p: b.prods[pi]})
+			}
+		}
+	}
+	if c.Rng.Intn(4) == 0 {
+		// the FIRST message a parameter ever gets is one it cannot decode
+		p := b.pars[c.Rng.Intn(len(b.pars))]
+		queue = append(queue, c13Call{kind: 'b', p: p, v: c.Rng.Intn(1000)})
+		afterRejected(p)
+	}
 	lastRead := map[int]bool{}    // producer -> read before
 	updSince := map[int][]int{}   // producer -> parameters updated (ok) since its last read
 	var readSinceUpd map[int]bool // producers read since the last ok update (nil before the first)
@@ -597,16 +627,21 @@ func c13Seq(c *Ctx) {
 					k.p = partial[c.Rng.Intn(len(partial))] // a parameter some producer does not depend on
 				}
 				switch q := c.Rng.Intn(100); {
-				case q < 15:
+				case q < 6:
+					k.kind, k.v = 'b', c.Rng.Intn(1000) // a message that does not decode
+					if c.Rng.Intn(2) == 0 {
+						afterRejected(k.p)
+					}
+				case q < 20:
 					k.v = cur[k.p] // the value it already holds
 					c.Note("seq.update-with-the-current-value")
-				case q < 35:
+				case q < 38:
 					k.v = c.Rng.Intn(5) // small, repeated
 				default:
 					k.v = next
 					next++
 				}
-				if c.Rng.Intn(3) == 0 {
+				if k.kind == 'u' && c.Rng.Intn(3) == 0 {
 					// every producer right after the update, in random order, one of them twice
 					for _, pi := range c.Rng.Perm(len(b.prods)) {
 						queue = append(queue, c13Call{kind: 'a', p: b.prods[pi]})
@@ -620,6 +655,9 @@ func c13Seq(c *Ctx) {
 			case r < 92:
 				k.kind, k.p, k.v = 'u', others[c.Rng.Intn(len(others))], next // not a parameter
 				next++
+				if c.Rng.Intn(4) == 0 {
+					k.kind = 'b' // undecodable AND not a parameter: panics before decoding, model version NOT bumped
+				}
 			case r < 94:
 				k.kind, k.p = 'd', others[c.Rng.Intn(len(others))]
 			case r < 97:
@@ -631,8 +669,21 @@ func c13Seq(c *Ctx) {
 				k.kind, k.p = 'd', c13Unknown
 			}
 		}
-		resp := c13Resp(k, b.invoke(k, []byte(itoa(k.v))))
+		resp := c13Resp(k, b.invoke(k, k.payload()))
 		// distribution
+		if k.kind == 'b' && k.p != c13Unknown {
+			if g[k.p].param {
+				c.Note("seq.update-rejected")
+				if !gotMsg[k.p] {
+					c.Note("seq.update-rejected-is-the-first-message-of-the-parameter")
+				}
+			} else {
+				c.Note("seq.update-rejected-on-a-node-that-is-no-parameter")
+			}
+		}
+		if (k.kind == 'u' || k.kind == 'b') && k.p != c13Unknown {
+			gotMsg[k.p] = true
+		}
 		switch {
 		case k.p == c13Unknown:
 			c.Note("seq.unknown-" + string(k.kind))
